@@ -48,6 +48,7 @@ def run(res):
     n_life = 140 if quick else 2100
     n_wire = 300 if quick else 6000
     n_signed = 450 if quick else 9000
+    n_chainlife = 120 if quick else 2400
     commit, setup, chan, stats = [], [], [], []
     for prof in profiles:
         r = lib.run_harness("policy", "commit", res.seed, n_commit, res.tier, profile=prof)
@@ -66,6 +67,10 @@ def run(res):
     wire = r["CASE"]
     stats += r.get("STATS", [])
     life = life + wire     # same case type (life_case), same checker
+    r = lib.run_harness("policy", "chainlife", res.seed, n_chainlife, res.tier)
+    chainlife = r["CASE"]
+    stats += r.get("STATS", [])
+    chan = chan + chainlife     # same case type per step (sign_case), same checker
     signed = []
     for prof in profiles:
         r = lib.run_harness("policy", "signed", res.seed, n_signed, res.tier, profile=prof)
@@ -106,7 +111,12 @@ def run(res):
                       + "; ".join(c["monitor_violation"][:3]),
                       {"domain": "policy-wire", "seed": res.seed, "case": _strip(c)})
     # end-to-end first: a real channel signing the commitment
-    for c in mon_chan[:2]:
+    for c in [c for c in mon_chan if c["kind"] == "chainlife"][:2]:
+        res.violation("on-chain validator on the KVV persister: a counterparty commitment beyond the initial one was signed "
+                      "although, by the harness's own record of the best chain, the funding transaction is in no block or "
+                      "its output is spent: " + "; ".join(c["monitor_violation"][:2]),
+                      {"domain": "policy-chainlife", "seed": res.seed, "case": _strip(c)})
+    for c in [c for c in mon_chan if c["kind"] != "chainlife"][:2]:
         res.violation("counterparty commitment outside the policy bounds was signed by "
                       "Channel::sign_counterparty_commitment_tx(_phase2): " + "; ".join(c["monitor_violation"][:3]),
                       {"domain": "policy-chan", "seed": res.seed, "case": _strip(c)})
@@ -188,7 +198,8 @@ def run(res):
         res.violation("sign_counterparty_commitment_tx(_phase2) disagrees with the model's sign_counterparty "
                       "(correspondence policy-chan); 0 signed, 1 panic, 2 refused",
                       {"correspondence": "policy-chan", "theorem": "C05_channel_value", "case": _strip(c),
-                       "step": c["steps"][i], "model(repaired, as-found)": model[-300:]}, has_input=False)
+                       "step": (c["steps"][i] if c["kind"] != "chainlife" else "commitment request #%d of the case" % i),
+                       "model(repaired, as-found)": model[-300:]}, has_input=False)
 
     structured = {c["coq"] for c in commit if c["kind"] in ("base", "pairwise")}
     nontrivial = len(structured) + len(set(sterms)) + len(set(hterms)) + len(set(lterms)) + len(set(gterms))
@@ -223,6 +234,10 @@ def run(res):
                 "side, the received side or both (plus distinct ones); modes valid / fee below min / fee above max / "
                 "in-flight one over (or exactly the sum without repeats) / count one over; the signature is verified "
                 "against the transaction built with LDK from the full lists and the bounds are evaluated on that. "
+                "chainlife: OnchainValidatorFactory on KVVPersister<MemoryKVVStore, Json>, one outbound channel, random "
+                "sequences of honest blocks (filler / with the funding tx / spending the funding output), forged blocks "
+                "(proof claims the funding tx, or leaves the spend out, for a header that says otherwise), restarts from "
+                "the store and requests for counterparty commitment 1, judged by the harness's own chain record. "
                 "Non-trivial = structured case (base "
                 "or boundary-mutated; every setup and chan step), distinct by full Coq term.",
         "samples": [_strip(commit[2]) if len(commit) > 2 else None, _strip(setup[0]), _strip(chan[0]), _strip(life[1]),
